@@ -369,3 +369,157 @@ Section Retry.
     apply active_body_violation; assumption.
   Qed.
 End Retry.
+
+(** * 3. The status requests of an active pass *)
+Section StatusRequests.
+  Variable force : bool.
+
+  Definition is_get (e : sev) : Prop := match e with SPhase (PGet _ _) => True | _ => False end.
+
+  Lemma paused_reads_l_gets phs kind ns refs : Forall is_get (paused_reads_l phs kind ns refs).
+  Proof.
+    induction refs as [|x xs IH]; cbn; [constructor|].
+    destruct (find_phase phs kind ns (fst x)); constructor; try exact I; [exact IH|constructor].
+  Qed.
+
+  Lemma paused_reads_gets phs m : Forall is_get (paused_reads phs m).
+  Proof. apply paused_reads_l_gets. Qed.
+
+  Lemma gets_no_meta l ms : Forall is_get l -> ~ In (SMeta ms) l.
+  Proof. intros H Hin. rewrite Forall_forall in H. exact (H _ Hin). Qed.
+
+  Lemma gets_no_members l : Forall is_get l -> member_evs l = [].
+  Proof.
+    induction l as [|e l IH]; intros H; [reflexivity|]. inversion H; subst.
+    destruct e as [x|m|p]; try contradiction. cbn. now apply IH.
+  Qed.
+
+  Lemma keeps2_no_members mem0 l : Forall (keeps2 mem0) l -> member_evs l = [].
+  Proof.
+    induction l as [|e l IH]; intros H; [reflexivity|]. inversion H; subst.
+    destruct e as [x|m|p]; try contradiction. cbn. now apply IH.
+  Qed.
+
+  (** the status request that ends a pass which reached the phase loop *)
+  Definition tail_status (mem1 : oset) (sw2 : sworld) (rem : list (N * N)) (pr : mres) : option (bool -> sev) :=
+    let mem2 := set_remotes mem1 rem in
+    match pr with
+    | MOk ctrlof failed => Some (status_ev_f (final_status (sw_phases sw2) mem2 ctrlof failed) failed)
+    | MPreflight => Some (status_ev (fail_mem mem2 RPreflightError))
+    | MErr e => if is_collision e then Some (status_ev (fail_mem mem2 RCollisionDetected)) else None
+    | MRemoteErr => None
+    end.
+
+  Lemma rpm_no_meta s ow prev phs sw acc rem sw' evs rem' r ms :
+    reconcile_phases_m force sw s ow prev phs acc rem = (sw', evs, rem', r) -> ~ In (SMeta ms) evs.
+  Proof.
+    intros H Hin. destruct (rpm_inv force _ _ _ _ _ _ _ _ _ _ _ H) as (_ & _ & _ & Hev & _).
+    rewrite Forall_forall in Hev. exact (Hev _ Hin).
+  Qed.
+
+  Lemma after_loop2_meta mem0 mem1 sw1 sw2 prev pre pevs rem pr evs r ms :
+    reconcile_phases_m force sw1 mem1 (as_owner mem1) prev (os_phases mem1) [] (os_remotes mem1) = (sw2, pevs, rem, pr) ->
+    Forall (keeps2 mem0) pre -> after_loop2 mem1 sw2 pre pevs rem pr evs r ->
+    In (SMeta ms) evs ->
+    keeps2 mem0 (SMeta ms) \/ exists f ok, tail_status mem1 sw2 rem pr = Some f /\ SMeta ms = f ok.
+  Proof.
+    intros Hrp Hpre Hal Hin. rewrite Forall_forall in Hpre.
+    assert (Hcase : forall tail, evs = pre ++ pevs ++ tail -> keeps2 mem0 (SMeta ms) \/ In (SMeta ms) tail).
+    { intros tail ->. apply in_app_or in Hin. destruct Hin as [Hi|Hi]; [left; now apply Hpre|].
+      apply in_app_or in Hi. destruct Hi as [Hi|Hi]; [exfalso; eapply rpm_no_meta; eauto|now right]. }
+    unfold after_loop2 in Hal. unfold tail_status. destruct pr as [e| | |ctrlof failed].
+    - destruct (is_collision e).
+      + destruct Hal as (ok & Hev & _). destruct (Hcase _ Hev) as [Hk|[Hi|[]]]; [now left|right]. eauto.
+      + destruct Hal as [Hev _]. rewrite <- (app_nil_r pevs) in Hev. destruct (Hcase _ Hev) as [Hk|[]]. now left.
+    - destruct Hal as [Hev _]. rewrite <- (app_nil_r pevs) in Hev. destruct (Hcase _ Hev) as [Hk|[]]. now left.
+    - destruct Hal as (ok & Hev & _). destruct (Hcase _ Hev) as [Hk|[Hi|[]]]; [now left|right]. eauto.
+    - destruct Hal as (ok & Hev & _). destruct (Hcase _ Hev) as [Hk|Hi]; [now left|].
+      apply in_app_or in Hi. destruct Hi as [Hi|[Hi|[]]]; [exfalso; eapply gets_no_meta; [apply paused_reads_gets|exact Hi]|].
+      right. eauto.
+  Qed.
+
+  Lemma stopped2_meta sw mem0 sw' evs ms : stopped2 sw mem0 sw' evs -> In (SMeta ms) evs -> keeps2 mem0 (SMeta ms).
+  Proof.
+    intros (_ & _ & _ & pre & reads & post & -> & Hpre & Hpost & Hreads) Hin. rewrite Forall_forall in Hpre, Hpost.
+    apply in_app_or in Hin. destruct Hin as [Hi|Hi]; [now apply Hpre|].
+    apply in_app_or in Hi. destruct Hi as [Hi|Hi]; [|now apply Hpost].
+    exfalso. destruct Hreads as [->|[_ ->]]; [contradiction|]. eapply gets_no_meta; [apply paused_reads_l_gets|exact Hi].
+  Qed.
+
+  (** Available in the computed status, exactly. *)
+  Lemma final_status_available_eq phs m ctrlof failed :
+    find_cond (os_conds (final_status phs m ctrlof failed)) CAvailable =
+    Some (match failed with
+          | Some _ => mk_cond m CAvailable SFalse RProbeFailure
+          | None => mk_cond m CAvailable STrue RAvailable end).
+  Proof.
+    unfold final_status. cbn [os_conds set_conds os_ctrlof].
+    rewrite paused_cond_other by discriminate. cbn [os_conds set_conds].
+    destruct failed as [n|].
+    - now rewrite (find_set_cond_same _ (mk_cond _ CAvailable SFalse RProbeFailure)).
+    - match goal with |- context [if ?b then _ else _] => destruct b end.
+      + rewrite find_set_cond_other by (cbn; discriminate).
+        now rewrite (find_set_cond_same _ (mk_cond _ CAvailable STrue RAvailable)).
+      + now rewrite (find_set_cond_same _ (mk_cond _ CAvailable STrue RAvailable)).
+  Qed.
+
+  Lemma fail_mem_available m rs : find_cond (os_conds (fail_mem m rs)) CAvailable = Some (mk_cond m CAvailable SFalse rs).
+  Proof. unfold fail_mem. cbn [os_conds set_conds]. apply (find_set_cond_same _ (mk_cond m CAvailable SFalse rs)). Qed.
+
+  Lemma fail_mem_other m rs t : t <> CAvailable -> find_cond (os_conds (fail_mem m rs)) t = find_cond (os_conds m) t.
+  Proof. intros Ht. unfold fail_mem. cbn [os_conds set_conds]. apply find_set_cond_other. cbn. congruence. Qed.
+
+  (** C01, reporting clause: whatever the pass, a status request that carries Available with reason
+      CollisionDetected either re-sends the stored condition or reports Available=False for the generation read. *)
+  Lemma collision_reported sw k ns n mem0 sw' evs r rv cs co rm fph ok cd :
+    find_set (sw_sets sw) k ns n = Some mem0 ->
+    objectset_pass force sw k ns n = (sw', evs, r) ->
+    In (SMeta (MStatus rv cs co rm fph ok)) evs ->
+    find_cond cs CAvailable = Some cd -> cd_reason cd = RCollisionDetected ->
+    find_cond (os_conds mem0) CAvailable = Some cd \/ (cd_status cd = SFalse /\ cd_gen cd = os_gen mem0).
+  Proof.
+    intros Hfind H Hin Hcd Hreason.
+    destruct (cond_true (os_conds mem0) CArchived) eqn:Harch.
+    { rewrite (C06_archived_not_reconciled force _ _ _ _ _ Hfind Harch) in H. injection H as _ <- _. contradiction. }
+    destruct (os_deleting mem0 || lifecycle_eqb (os_life mem0) LArchived) eqn:Hgo.
+    { assert (Hg : is_going mem0).
+      { split; [exact Harch|]. apply orb_true_iff in Hgo. destruct Hgo as [Hg|Hg]; [now left|right]. destruct (os_life mem0); try discriminate; reflexivity. }
+      pose proof (objectset_pass_going force _ _ _ _ _ _ _ _ Hfind Hg H) as Hd.
+      destruct (deletion_pass_inv force _ _ _ _ _ Hd) as (swd & tevs & td & _ & _ & _ & _ & _ & Hs & _).
+      destruct (Hs _ _ _ _ _ _ Hin) as (Ha & _). congruence. }
+    apply orb_false_iff in Hgo. destruct Hgo as [Hdel Hl].
+    assert (Hact : is_active mem0).
+    { split; [exact Harch|]. split; [exact Hdel|]. intros E. rewrite E in Hl. discriminate. }
+    assert (Hkeep : keeps2 mem0 (SMeta (MStatus rv cs co rm fph ok)) ->
+                    find_cond (os_conds mem0) CAvailable = Some cd \/ (cd_status cd = SFalse /\ cd_gen cd = os_gen mem0)).
+    { cbn. intros (_ & [Ha|Ha] & _); [left; congruence|right]. rewrite Hcd in Ha. injection Ha as ->. auto. }
+    destruct (objectset_pass_active2 force _ _ _ _ _ _ _ _ Hfind Hact H) as [Hs|Hr].
+    - apply Hkeep. eapply stopped2_meta; eauto.
+    - destruct Hr as (mem1 & sw1 & sw2 & pevs & rem & pr & pre & Hs & _ & _ & _ & _ & _ & _ & Hrp & _ & _ & _ & Hpre & Hal).
+      destruct (after_loop2_meta _ _ _ _ _ _ _ _ _ _ _ _ Hrp Hpre Hal Hin) as [Hk|(f & ok' & Hf & He)]; [now apply Hkeep|].
+      assert (Hgen : os_gen mem1 = os_gen mem0) by (destruct Hs as (?&?&?&?&?&?&?&?); assumption).
+      right. unfold tail_status in Hf. destruct pr as [e| | |ctrlof failed].
+      + destruct (is_collision e); [|discriminate]. injection Hf as <-. unfold status_ev, status_ev_f in He. remember (fail_mem _ _) as fm eqn:Efm in He. injection He as _ -> _ _ _ _. subst fm.
+        rewrite fail_mem_available in Hcd. injection Hcd as <-. cbn. auto.
+      + discriminate.
+      + injection Hf as <-. unfold status_ev, status_ev_f in He. remember (fail_mem _ _) as fm eqn:Efm in He. injection He as _ -> _ _ _ _. subst fm.
+        rewrite fail_mem_available in Hcd. injection Hcd as <-. cbn. auto.
+      + injection Hf as <-. unfold status_ev_f in He. remember (final_status _ _ _ _) as fm eqn:Efm in He. injection He as _ -> _ _ _ _. subst fm.
+        rewrite final_status_available_eq in Hcd. injection Hcd as <-. destruct failed; discriminate.
+  Qed.
+End StatusRequests.
+
+(** * 4. Boolean equalities *)
+Lemma cstatus_eqb_spec a b : cstatus_eqb a b = true <-> a = b.
+Proof. destruct a, b; cbn; split; congruence. Qed.
+Lemma creason_eqb_spec a b : creason_eqb a b = true <-> a = b.
+Proof. destruct a, b; cbn; split; congruence. Qed.
+Lemma cond_eqb_refl' c : cond_eqb c c = true.
+Proof.
+  unfold cond_eqb. rewrite Z.eqb_refl.
+  assert (ctype_eqb (cd_type c) (cd_type c) = true) as -> by now apply ctype_eqb_spec.
+  assert (cstatus_eqb (cd_status c) (cd_status c) = true) as -> by now apply cstatus_eqb_spec.
+  assert (creason_eqb (cd_reason c) (cd_reason c) = true) as -> by now apply creason_eqb_spec. reflexivity.
+Qed.
+Lemma lifecycle_eqb_spec a b : lifecycle_eqb a b = true <-> a = b.
+Proof. destruct a, b; cbn; split; congruence. Qed.
